@@ -188,7 +188,11 @@ def run_wsgi(om, errs, ex, raw, B, short=True):
     app = om.Ombott({'max_memfile_size': B})
 
     def h():
-        return app.request.body.read()
+        b1 = app.request.body.read()
+        # the handler re-labels the body (a signature check done, now let the JSON / form accessors see it) and looks again
+        app.request['CONTENT_TYPE'] = 'application/x-retyped'
+        b2 = app.request.body.read()
+        return b1 if b1 == b2 else b'SECOND-LOOK-DIFFERS:' + b1 + b'|' + b2
     app.route('/p', 'POST', h)
     env = wsgi.environ('POST', '/p', input=stream, clen=None, chunked=True)
     obs = {'hang': False, 'err': None, 'client_error': False, 'content': None}
